@@ -124,7 +124,7 @@ func c09Case(w *rt.W, text string, r date.Rule, allPaths bool) int {
 }
 
 func runC09(c *rt.Ctx) {
-	L := c.Pick(9, 10)
+	L := c.Pick(9, 11)
 	c.SetRule(fmt.Sprintf("(a) 60 years x MM 00-99 x DD 00-99 x 4 separator layouts, enumerated once each, x RuleDisableBasic on/off x MaxInputLength in {0,8,10,15} x {string, []byte, UnmarshalText}; (b) every string over {0,1,2,3,9,-} of length 0..%d (exhaustive) under the default configuration; (c) every single-byte substitution (256 values), insertion and deletion of seeded valid texts under all eight configurations. ", L) +
 		"distinct_nontrivial counts distinct (text, rule, limit) cases whose text names a non-existent day in a well-formed layout, plus distinct accepted texts, each enumerated once (family (a) and (b) only)")
 	c.Assume("recogniser and calendar come from harness/ref/civil.go; package time is not consulted by the oracle")
